@@ -21,7 +21,8 @@ Definition view (o : open) : adv :=
      a_mp := mp_of (o_caps o); a_as4 := as4_of (o_caps o); a_addpath := ap_of (o_caps o);
      a_nexthop := nh_of (o_caps o); a_extmsg := existsb is_ext (o_caps o);
      a_refresh := existsb is_rr (o_caps o); a_enhanced := existsb is_err (o_caps o);
-     a_paths_limit := pl_of (o_caps o); a_multisession := existsb is_ms (o_caps o) |}.
+     a_paths_limit := pl_of (o_caps o); a_multisession := existsb is_ms (o_caps o);
+     a_ms_ids := ms_ids_of_caps (o_caps o) |}.
 
 Definition refresh_code (k : refresh_kind) : Z :=
   match k with RefreshAbsent => REFRESH_ABSENT | RefreshNormal => REFRESH_NORMAL | RefreshEnhanced => REFRESH_ENHANCED end.
@@ -470,7 +471,8 @@ Definition our_adv (c : cfg) : adv :=
      a_nexthop := (if c_nexthop c then filter (fun n => memn n (c_nexthops c)) NEXTHOP_TABLE else []);
      a_extmsg := c_extmsg c; a_refresh := c_refresh c; a_enhanced := c_refresh c;
      a_paths_limit := (if c_addpath c =? 0 then [] else our_paths_limit c);
-     a_multisession := c_multisession c |}.
+     a_multisession := c_multisession c;
+     a_ms_ids := (if c_multisession c then our_ms_ids else []) |}.
 
 Lemma flat_map_opt {B} (g : cap -> list B) b l : flat_map g (opt b l) = if b then flat_map g l else [].
 Proof. destruct b; reflexivity. Qed.
@@ -487,21 +489,23 @@ Proof. intros H. induction l as [|x l IH]; cbn; [reflexivity | now rewrite H, IH
 
 Theorem view_open_of c : view (open_of c) = our_adv c.
 Proof.
-  unfold view, open_of, our_adv, caps_of_config, mp_of, as4_of, ap_of, nh_of, pl_of.
-  cbn [o_version o_asn o_hold o_rid o_caps].
-  rewrite !flat_map_app, !existsb_app, !flat_map_opt, !existsb_opt, mp_of_map.
-  rewrite !(flat_map_mp_nil _ _ (fun _ => eq_refl)), !(existsb_mp_false _ _ (fun _ => eq_refl)).
-  cbn [flat_map existsb is_ext is_rr is_err is_ms app orb andb].
-  change (CAP_OPERATIONAL =? CAP_MULTISESSION) with false. change (CAP_LINK_LOCAL_NEXTHOP =? CAP_MULTISESSION) with false.
-  change (CAP_MULTISESSION =? CAP_MULTISESSION) with true. cbn [orb].
-  rewrite !if_same, !andb_false_r, !andb_true_r, !app_nil_r. cbn [app orb].
-  rewrite ?orb_false_r.
-  f_equal;
+  unfold view, open_of, our_adv, caps_of_config, mp_of, as4_of, ap_of, nh_of, pl_of, ms_ids_of_caps, ms_tlvs, our_ms_ids, ms_ids.
+  destruct MS_VALUE_PARSED.
+  all: cbn [o_version o_asn o_hold o_rid o_caps].
+  all: rewrite !flat_map_app, !existsb_app, !flat_map_opt, !existsb_opt, mp_of_map.
+  all: rewrite !(flat_map_mp_nil _ _ (fun _ => eq_refl)), !(existsb_mp_false _ _ (fun _ => eq_refl)).
+  all: cbn [flat_map existsb is_ext is_rr is_err is_ms app orb andb].
+  all: change (CAP_OPERATIONAL =? CAP_MULTISESSION) with false; change (CAP_LINK_LOCAL_NEXTHOP =? CAP_MULTISESSION) with false.
+  all: change (CAP_MULTISESSION =? CAP_MULTISESSION) with true; cbn [orb skipn app].
+  all: rewrite !if_same, !andb_false_r, !andb_true_r, !app_nil_r; cbn [app orb].
+  all: rewrite ?orb_false_r.
+  all: f_equal;
     try (unfold trans, ASN_MAX_2BYTE, AS_TRANS;
          destruct (Z.gtb_spec (c_local_as c) 65535), (Z.leb_spec (c_local_as c) 65535); (reflexivity || lia));
     try (destruct (c_addpath c =? 0); cbn [negb andb]; try destruct (our_paths_limit c); cbn [length Nat.eqb negb]);
     repeat match goal with |- context [if ?b then _ else _] => destruct b end; reflexivity.
 Qed.
+
 
 (* ------------------------------------------------------------------ configuration level statements *)
 
@@ -691,10 +695,15 @@ Proof.
   change (mp_of (o_caps (open_of c))) with (a_mp (view (open_of c))) in S1.
   rewrite view_open_of in S1, S9. cbn [our_adv a_multisession a_mp] in S1, S9.
   rewrite (mp_add_nodup _ [] Hnd) in S1. cbn [app] in S1.
-  cbn [negotiate_g n_ms]. unfold ms_faults. cbn [our_adv a_multisession a_mp view].
+  cbn [negotiate_g n_ms]. unfold ms_faults.
+  change (ms_ids_of_caps (o_caps (open_of c))) with (a_ms_ids (view (open_of c))). rewrite view_open_of.
+  change (set_eqb (ids_default (a_ms_ids (our_adv c))) (ids_default (ms_ids_of_caps (o_caps r))))
+    with (same_set (session_ids (our_adv c)) (session_ids (view r))).
+  cbn [our_adv a_multisession a_mp view].
   rewrite S9, R9, S1.
   destruct (c_multisession c) eqn:Hms; cbn [andb]; [|reflexivity].
   destruct (existsb is_ms (o_caps r)); [|reflexivity].
+  destruct (same_set _ _); cbn [negb andb]; [|reflexivity].
   rewrite <- dedup_is_common, <- R1, <- fams_eqb_is.
   destruct (cs_mp (fold_caps (o_caps r))) as [rl|]; cbn [odflt].
   - destruct (fams_eqb (c_families c) rl); reflexivity.
@@ -714,6 +723,8 @@ Proof.
   pose proof (peer_as_cases fx (open_of c) r) as Hcases. cbv zeta in Hcases.
   destruct Hr as (_ & Hcons & Hhold).
   unfold validate_g, rfc_faults.
+  assert (Hz : c_local_as c =? 0 = false) by (apply Z.eqb_neq; destruct Hc as (Hpos & _); lia).
+  rewrite Hz.
   change (a_version (view r)) with (o_version r). change (a_id (view r)) with (o_rid r).
   change (a_hold (view r)) with (o_hold r).
   rewrite Hv, <- Hpa. cbn [Z.eqb Pos.eqb app].
@@ -1353,4 +1364,46 @@ Proof.
   cbn [andb]. rewrite len_cons, Z.ltb_irrefl. cbv zeta. rewrite firstn_len_self.
   unfold p. cbn [length dec_params]. rewrite kv1_enc.
   apply Z.eqb_neq in Hk1. apply Z.eqb_neq in Hk2. rewrite Hk1, Hk2. reflexivity.
+Qed.
+
+(* ------------------------------------------------------------------ local-as auto *)
+
+Lemma our_open_configured c r : wf_cfg c -> our_open c r = open_of c.
+Proof.
+  intros (Hpos & _). unfold our_open.
+  assert (c_local_as c =? 0 = false) as -> by (apply Z.eqb_neq; lia). reflexivity.
+Qed.
+
+Theorem negotiate_this_tree c r :
+  wf_cfg c -> wf_peer r -> LOCAL_AS_FROM_CAP = true \/ c_local_as c <= 65535 ->
+  agrees (negotiate c r) (rfc_negotiate (our_adv c) (view r)).
+Proof. intros Hc Hr Hfx. unfold negotiate. rewrite (our_open_configured _ _ Hc). apply negotiate_is_rfc; assumption. Qed.
+
+Lemma peer_true_as_is r : peer_true_as r = true_as (view r).
+Proof.
+  unfold peer_true_as. destruct (fold_caps_gen (o_caps r) cs_empty) as (_ & R2 & _). cbv zeta in R2.
+  fold (fold_caps (o_caps r)) in R2. rewrite R2, (as4_step_last _ _ (o_asn r)), true_as_last. cbn [cs_empty cs_asn4].
+  destruct (as4_of (o_caps r)); reflexivity.
+Qed.
+
+(* with the repaired new_open, `local-as auto` is the configuration whose local AS is the peer's true AS *)
+Theorem auto_open c r :
+  c_local_as c = 0 -> AUTO_AS_FROM_PEER_CAP = true -> our_open c r = open_of (with_local_as c (true_as (view r))).
+Proof. intros H0 Hf. unfold our_open. rewrite H0, Hf, peer_true_as_is. reflexivity. Qed.
+
+(* ... and the session is internal: both negotiated AS numbers are the peer's true AS *)
+Theorem auto_is_ibgp c r :
+  c_local_as c = 0 -> AUTO_AS_FROM_PEER_CAP = true -> c_asn4 c = true ->
+  wf_cfg (with_local_as c (true_as (view r))) -> wf_peer r ->
+  let n := negotiate_g true (our_open c r) r in
+  n_local_as n = true_as (view r) /\ n_peer_as n = true_as (view r)
+  /\ agrees n (rfc_negotiate (our_adv (with_local_as c (true_as (view r)))) (view r)).
+Proof.
+  intros H0 Hf H4 Hc Hr n. subst n. rewrite (auto_open _ _ H0 Hf).
+  pose proof (negotiate_is_rfc true _ r Hc Hr (or_introl eq_refl)) as Hag.
+  destruct Hag as (A1 & A2 & Hla & Hpa & Hrest).
+  split; [|split; [|repeat split; try assumption; apply Hrest]].
+  - rewrite Hla. cbn [rfc_negotiate p_local_as]. rewrite (true_as_ours _ Hc). reflexivity.
+  - rewrite Hpa. cbn [rfc_negotiate p_peer_as]. unfold speaks_as4. cbn [our_adv a_as4 with_local_as c_asn4].
+    rewrite H4. reflexivity.
 Qed.
